@@ -167,8 +167,9 @@ def validate(module, cfg, trace_file, tag, timeout=1200):
     states = int(m.group(1)) if m else 0
     ok = rc == 0 and "No error has been found" in out
     if not ok and not viol:
-        raise ToolError("trace validation %s on %s failed without a verdict (rc=%d):\n%s" % (
-            module, trace_file, rc, out[-5000:]))
+        errs = "\n".join(x for x in out.splitlines() if x.startswith("Error") or "rror:" in x)[:3000]
+        raise ToolError("trace validation %s on %s failed without a verdict (rc=%d):\n%s\n...\n%s" % (
+            module, trace_file, rc, errs, out[-1500:]))
     return {"ok": ok, "lines": n, "violations": viol, "known": known, "states": states, "hist": hist}
 
 
